@@ -25,7 +25,7 @@ macro_rules! gave_up {
 pub fn h_recover_via_parser<M: VMode, Er: VEr>() {
     run::<u8, Er, (), _>(|inp, s0| {
         let anyp = |k| anyp::<SymIn<u8>, X<Er>>(k);
-        let r = anyp(0).recover_with(via_parser(anyp(1))).go::<M>(inp);
+        let r = anyp(0).recover_with(via_parser(anyp(1))).gov::<M>(inp);
         let s = snap(inp);
         let (a, f) = (lg(inp, 0), lg(inp, 1));
         vassert!(a.called && a.calls == 1 && a.entry_pos == s0.pos && a.entry_sec == s0.nsec, "C08/recover_with.parser-tried-first-from-entry");
@@ -70,7 +70,7 @@ pub fn h_skip_until<M: VMode, Er: VEr>() {
         let mut p = anyp::<SymIn<u8>, X<Er>>(4);
         p.bounded = true; // single reserved call that must fail: recovery is what is under test
         let strat = skip_until(skip.ignored(), until.ignored(), || 9u16);
-        let r = p.recover_with(strat).go::<M>(inp);
+        let r = p.recover_with(strat).gov::<M>(inp);
         let s = snap(inp);
         let a = lg(inp, 4);
         let (u0, u1, k0, k1) = (lg(inp, 0), lg(inp, 1), lg(inp, 2), lg(inp, 3));
@@ -114,7 +114,7 @@ pub fn h_skip_retry<M: VMode, Er: VEr>() {
         skip.bounded = true;
         let p = anyp_multi::<SymIn<u8>, X<Er>>(4, 2);
         let strat = skip_then_retry_until(skip.ignored(), until.ignored());
-        let r = p.recover_with(strat).go::<M>(inp);
+        let r = p.recover_with(strat).gov::<M>(inp);
         let s = snap(inp);
         let (u0, u1, k0, k1, a, b) = (lg(inp, 0), lg(inp, 1), lg(inp, 2), lg(inp, 3), lg(inp, 4), lg(inp, 5));
         let pre = SecSpec::pre(&s0);
